@@ -23,6 +23,10 @@ Readings adopted
     carries besides (IPC schema, the init logs of the first turn, token sentinel, EOS) is not counted as overshoot.  Bodies
     are measured decoded (the unit `max_response_bytes` is accounted in for the /init turn, whose coding happens afterwards);
     the size on the wire is recorded in the evidence.  A turn that ran a single process() call trivially satisfies it.
+  * while the cap test of the source reads the sink behind the compressor (translator: gen_meter_front = false) the chunking
+    of coded continuation turns is outside the model (it depends on the codec's buffering): such runs are held to the
+    oracles (same events as the identity-coded run; overshoot bound -> finding) and their chunking is not compared.  On
+    a tree whose cap test reads the position in front of the compressor, coded runs must chunk exactly like identity runs.
   * resuming with a different token key is outside the statement ("sharing the token key"); it is exercised as a negative
     control only (must fail, must not yield batches).
 """
@@ -71,7 +75,7 @@ def gen_log(rng: Any, text: str, allow_exc: bool) -> list[Any]:
 
 
 def gen_program(rng: Any, thorough: bool) -> dict[str, Any]:
-    n = rng.choice([0, 1, 2, 3, 4, 5, 6, 6] + ([8, 10] if thorough else []))
+    n = rng.choice([0, 1, 2, 3, 3, 4, 4, 5, 5, 6, 6, 7] + ([8, 10] if thorough else []))
     steps = []
     for i in range(n):
         rows = rng.choice([0, 1, 5, 40, 40, 150, 150, 600])
@@ -403,7 +407,7 @@ def run(ctx: Any) -> None:
 
     thorough = ctx.tier == "thorough"
     rng = ctx.rng
-    n_prog = int(__import__("os").environ.get("VERIF_C11_NPROG", 260 if thorough else 34))
+    n_prog = int(__import__("os").environ.get("VERIF_C11_NPROG", 260 if thorough else 28))
     codecs: list[str | None] = [None, "zstd", "gzip"]
     ctx.rule = (
         "case = (producer program, method shape, scenario); scenario iterate: caps {None, 1, huge} + caps on / one below / one above "
